@@ -142,6 +142,8 @@ pub struct Grammar {
     pub loop_counts: Vec<i64>,
     /// immediately applied anonymous function of one parameter `p<depth>`: `functie(p0) { body }(arg)`
     pub iife: bool,
+    /// named function definitions as statements: `functie NAME(PARAMS) { body }`
+    pub named_funcs: Vec<(String, Vec<String>)>,
     pub block_stmt: bool,
     pub break_continue: bool,
     pub ret: bool,
@@ -306,6 +308,10 @@ impl Enumerator {
         }
         if g.block_stmt {
             c += self.count_blocks(n - 1, ctx);
+        }
+        if !g.named_funcs.is_empty() && ctx.func_depth < 2 {
+            let inner = Ctx { in_loop: false, in_func: true, loop_depth: 0, func_depth: ctx.func_depth + 1 };
+            c += g.named_funcs.len() as u64 * self.count_blocks(n - 1, inner);
         }
         if !g.loop_counts.is_empty() && ctx.loop_depth < 2 {
             c += g.loop_counts.len() as u64 * self.count_blocks(n - 1, Self::loop_ctx(ctx));
@@ -581,6 +587,15 @@ impl Enumerator {
         if g.block_stmt {
             if !self.each_block(n - 1, ctx, &mut |b| f(&[Stmt::Block(b.to_vec())])) {
                 return false;
+            }
+        }
+        if !g.named_funcs.is_empty() && ctx.func_depth < 2 {
+            let inner = Ctx { in_loop: false, in_func: true, loop_depth: 0, func_depth: ctx.func_depth + 1 };
+            for (name, params) in &g.named_funcs {
+                let ps: Vec<&str> = params.iter().map(|s| s.as_str()).collect();
+                if !self.each_block(n - 1, inner, &mut |b| f(&[es(func(name, &ps, b.to_vec()))])) {
+                    return false;
+                }
             }
         }
         if !g.loop_counts.is_empty() && ctx.loop_depth < 2 {
